@@ -10,7 +10,7 @@ def run(ctx):
     for cfg in (["MC_MQ_q.cfg", "MC_MQ_p40.cfg"] if ctx.quick else ["MC_MQ_q.cfg", "MC_MQ_p40.cfg", "MC_MQ_p90.cfg", "MC_MQ_t.cfg"]):
         ctx.mc("MC_MQ", cfg, timeout=3000 if ctx.quick else 14400)
     ctx.mc("MC_Dwt53", "MC_Dwt53_q.cfg" if ctx.quick else "MC_Dwt53_t.cfg", timeout=3000 if ctx.quick else 14400)
-    ctx.mc("MC_T1", "MC_T1_q.cfg" if ctx.quick else "MC_T1_t.cfg", timeout=6000)
+    ctx.mc("MC_T1", "MC_T1_q.cfg" if ctx.quick else "MC_T1_t.cfg", timeout=6000 if ctx.quick else 14400)
     trace = os.path.join(wd, "trace.ndjson")
     args = ["c20", "--out", trace, "--seed", str(ctx.seed)] + (["--n", "200", "--maxdim", "40", "--exh", "1"] if ctx.quick else ["--n", "3000", "--maxdim", "257", "--exh", "2"])
     out = vlib.run_driver(drv, args, env=ctx.env())
@@ -24,7 +24,7 @@ def run(ctx):
     mshards = vlib.shard_trace(mqf, wd, vlib.NCPU, prefix="mq", max_bytes=6 << 20)
     oshards = vlib.shard_trace(otf, wd, vlib.NCPU, prefix="ot", max_bytes=6 << 20)
     v1 = vlib.validate(wd, "MqTrace", mshards, timeout=3000 if ctx.quick else 14400)
-    v2 = vlib.validate(wd, "C20Trace", oshards, timeout=3000, heap="4g")
+    v2 = vlib.validate(wd, "C20Trace", oshards, timeout=3000 if ctx.quick else 14400, heap="4g")
     val = {"rejects": v1["rejects"] + v2["rejects"], "states": v1["states"] + v2["states"], "transitions": v1["transitions"] + v2["transitions"],
            "lines": v1["lines"] + v2["lines"], "accepted": v1["accepted"] + v2["accepted"], "infos": v1["infos"] + v2["infos"], "classes": set()}
     steps = sum(int(i.split("=")[1]) for i in val["infos"] if i.startswith("steps="))
